@@ -8,13 +8,13 @@ from contracts.lib import *  # noqa
 
 LEVEL = "proof"
 MANIFEST_ENTRY = {
-    "text": "Unbounded proof, for all byte-string inputs, that every tagged derivation in hashutil and every chain built on it (client/file/bucket lease secrets, write enabler, mutable key chain in the cap constructors, SecretHolder, MutableFileNode secrets) computes exactly SHA256d(netstring(TAG) + body)[:L] with the tags, argument order and truncation of the deployed format.",
+    "text": "Unbounded proof, for all byte-string inputs, that every tagged derivation in hashutil and every chain built on it (client/file/bucket lease secrets, write enabler, mutable key chain in the cap constructors, SecretHolder, MutableFileNode secrets) computes exactly SHA256d(netstring(TAG) + body)[:L] with the tags, argument order and truncation of the deployed format. Additionally, with the list shape bounded to 2 candidate servers (labelled bounded, level-B obligations): Tahoe2ServerSelector._create_trackers creates every upload ServerTracker with the bucket renewal/cancel derivations of the file renewal/cancel secrets and the lease seed of that same server.",
     "note": "SHA-256 is an uninterpreted function, so the proof is equality of the hash INPUT and truncation for all inputs; the tag constants in the contract are the deployed format's (the source comments call any change a compatibility break). RSA DER serialisation and AES are opaque.",
 }
 EXPLANATION = "Each real function is executed symbolically and its result compared with an independently written specification term."
 TRUSTED = ["hashlib.sha256 as an uninterpreted function String->String with 32-byte output; update() concatenates"]
 ASSUMPTIONS = []
-NOT_DECIDED = "Tahoe2ServerSelector lease-secret computation inside the upload state machine (same hashutil calls, not under contract)."
+NOT_DECIDED = "the two file_*_secret_hash calls at the top of Tahoe2ServerSelector.get_shareholders (an inlineCallbacks generator; the hash functions themselves and _create_trackers, which consumes their results, are under contract)."
 
 SHA = hash_fn("sha256")
 
@@ -401,10 +401,98 @@ class CapKeyChain(_Hash):
         return [("canary", T(out.value[1]) == T(a["a0"]))]
 
 
+class UploadTrackerSecrets(_Hash):
+    """Tahoe2ServerSelector._create_trackers: the lease secrets every ServerTracker (writeable or read-only server) is created
+    with are the per-bucket derivations of the FILE secrets with the lease seed of THAT server -- renewal from the file renewal
+    secret, cancel from the file cancel secret -- for all secrets, seeds and size limits (2 candidate servers)."""
+    file = "allmydata/immutable/upload.py"
+    fn = "Tahoe2ServerSelector"
+    nargs = 4      # file renewal secret, file cancel secret, seed of server 0, seed of server 1
+    raises = (AssertionError,)
+    level = "B"
+    bound = "2 candidate servers (seeds, secrets and the servers' size limits symbolic)"
+
+    @property
+    def qualname(self):
+        return "Tahoe2ServerSelector._create_trackers"
+
+    def inputs(self):
+        from pyvc.harness import IntK
+        d = {"a%d" % i: StrK(True, rndmax=20) for i in range(4)}
+        d["a2"].random = lambda rng: bytes(rng.randrange(256) for _ in range(20))
+        d["a3"].random = lambda rng: bytes(rng.randrange(256) for _ in range(20))
+        d["max0"], d["max1"], d["alloc"] = IntK(0), IntK(0), IntK(0)
+        return d
+
+    def servers(self, I, a):
+        from contracts.lib import stub
+        V1 = b"http://allmydata.org/tahoe/protocols/storage/v1"
+        out = []
+        for i in (0, 1):
+            out.append(stub("server%d" % i, get_lease_seed=(lambda v: lambda I_, a_, k: v)(a["a%d" % (2 + i)]),
+                            get_serverid=(lambda v: lambda I_, a_, k: v)(b"id%d" % i),
+                            get_version=(lambda v: lambda I_, a_, k: {V1: {b"maximum-immutable-share-size": v}})(a["max%d" % i])))
+        return out
+
+    def run(self, I, a):
+        from contracts.lib import stub, noop
+        made = []
+        srv = self.servers(I, a)
+        sel = SObj(self.module().Tahoe2ServerSelector, {"peer_selector": stub("peer_selector", add_peer=noop, mark_readonly_peer=noop)})
+        create = ModelFn("create_server_tracker", lambda I_, a_, k: (made.append((a_[0], a_[1], a_[2])), ("tracker", a_[0]))[1])
+        ro, rw = I.call_value(self.target(I), [sel, list(srv), a["alloc"], a["a0"], a["a1"], create], {})
+        return tuple((srv.index(s), r, c) for (s, r, c) in made), len(ro) + len(rw)
+
+    def native(self, a):
+        from allmydata.immutable.upload import Tahoe2ServerSelector
+        V1 = b"http://allmydata.org/tahoe/protocols/storage/v1"
+
+        class S(object):
+            def __init__(s, i):
+                s.i = i
+            get_lease_seed = lambda s: a["a%d" % (2 + s.i)]
+            get_serverid = lambda s: b"id%d" % s.i
+            get_version = lambda s: {V1: {b"maximum-immutable-share-size": a["max%d" % s.i]}}
+
+        class P(object):
+            add_peer = mark_readonly_peer = lambda s, x: None
+
+        def f():
+            sel = object.__new__(Tahoe2ServerSelector)
+            sel.peer_selector = P()
+            made = []
+            srv = [S(0), S(1)]
+            ro, rw = sel._create_trackers(srv, a["alloc"], a["a0"], a["a1"], lambda s, r, c: (made.append((s.i, r, c)), s)[1])
+            return tuple(made), len(ro) + len(rw)
+        return native_outcome(f)
+
+    def ensures(self, I, a, out):
+        if out.kind == "raise":
+            ln = [z3.Length(T(a["a2"])), z3.Length(T(a["a3"]))] if I is not None else None
+            return [("assertion-only-for-non-20-byte-seed", z3.Or(ln[0] != 20, ln[1] != 20) if I is not None else z3.BoolVal(len(a["a2"]) != 20 or len(a["a3"]) != 20))]
+        made, n = out.value
+        g = [("one-tracker-per-candidate-server", z3.BoolVal(n == 2 and sorted(m[0] for m in made) == [0, 1]))]
+        rt, ct = PAIR["bucket_renewal_secret_hash"][0], PAIR["bucket_cancel_secret_hash"][0]
+        for (i, r, c) in made:
+            seed = a["a%d" % (2 + i)]
+            if I is None:
+                g.append(("server-%d-renewal-secret-is-bucket-derivation-of-the-file-renewal-secret-with-its-own-seed" % i, z3.BoolVal(r == ref_d(ref_ns(rt) + ref_ns(a["a0"]) + ref_ns(seed)))))
+                g.append(("server-%d-cancel-secret-is-bucket-derivation-of-the-file-cancel-secret-with-its-own-seed" % i, z3.BoolVal(c == ref_d(ref_ns(ct) + ref_ns(a["a1"]) + ref_ns(seed)))))
+            else:
+                g.append(("server-%d-renewal-secret-is-bucket-derivation-of-the-file-renewal-secret-with-its-own-seed" % i, T(r) == U(pair(zs(rt), T(a["a0"]), T(seed)))))
+                g.append(("server-%d-cancel-secret-is-bucket-derivation-of-the-file-cancel-secret-with-its-own-seed" % i, T(c) == U(pair(zs(ct), T(a["a1"]), T(seed)))))
+        return g
+
+    def canary(self, I, a, out):
+        made, n = out.value
+        return [("canary", T(made[0][1]) == T(made[0][2]))]
+
+
 def contracts(tier):
     cs = [Tagged(f) for f in SINGLE] + [SecretAsTag(f) for f in SECRET_AS_TAG] + [Pair(f) for f in PAIR]
     cs += [WriteEnabler(), SecretHolderChain(), MutableNodeSecrets()]
     cs += [CapKeyChain("WriteableSSKFileURI", "write"), CapKeyChain("WriteableMDMFFileURI", "write"),
            CapKeyChain("ReadonlySSKFileURI", "read"), CapKeyChain("ReadonlyMDMFFileURI", "read"),
            CapKeyChain("CHKFileURI", "chk")]
+    cs += [UploadTrackerSecrets()]
     return cs
